@@ -22,6 +22,7 @@ def scenarios(quick):
         ([retry(2, dly=1), rl("r", 3, wait=9)], []),
         ([cb("c"), rl("r", 4, wait=9), retry(1, dly=1)], []),
         ([bh("b", 1, wait=4), retry(1, dly=1)], [env("BhTake", 0, id="b"), env("BhRelease", 5, id="b")]),     # waiting for a permit as the outermost policy
+        ([to(20), retry(2, dly=2)], []),                                                                       # a cancellable copy between the result and the retry policy
         ([retry(0)], []),                                                                                      # policies that allow a single attempt
         ([fb(), retry(0, dly=1)], []),
     ]
